@@ -369,7 +369,7 @@ c06 = pool_prop(
     "followed by the owner's request with the same (smaller-or-equal, fresh) nonce; compared: complete projected state "
     "before/after the refused request, host registrations, agent calls, and the owner's acceptance",
     lambda tier: [("VipStoreMC", "VipStoreMC_nonce.cfg")] + ([("VipPoolMC", "VipPoolMC_bill_q.cfg")] if tier == "quick" else [("VipPoolMC", "VipPoolMC_bill.cfg")]),
-    weights=dict(forged=40, forgedrun=8, stale=8, update=20, sleep=6),
+    weights=dict(forged=40, forgedrun=8, stale=8, replay=12, update=20, sleep=6, addnode=6, withdraw=3),
     extra_jobs=lambda s, tier, work: nonce_race_jobs("c06race", s, tier, work))
 
 c07 = pool_prop(
@@ -715,6 +715,8 @@ def c14(pid, tier, work, replay):
         runs.append(("c14-wide-%s" % transport, "vipsim", ["rpcwide", "1", str(s), "40", "2", transport, "0", "@TRACE", "@STATUS"], "fake"))
         runs.append(("c14-deep-%s" % transport, "vipsim", ["rpcwide", "80", str(s), "1", "2", transport, "1", "@TRACE", "@STATUS"], "fake"))
     runs.append(("c14-wide-race", "viprace", ["rpcwide", "1", str(s), "40", "3", "pipe", "0", "@TRACE", "@STATUS"], "real"))
+    # a Remote without a configured limit of pending calls: 70 calls in flight at once, none may be dropped
+    runs.append(("c14-wide-nolimit", "vipsim", ["rpcwide", "1", str(s), "70", "1", "mem", "2", "@TRACE", "@STATUS"], "fake"))
     runs.append(("c14-first", "viprace", ["rpcfirst", str(s), str(sized(tier, 150, 2000)), "4", "@TRACE", "@STATUS"], "real"))
     return event_check(
         pid, tier, work, "VipRpcTrace", "VipRpcTrace.cfg", [("VipRpcMC", "VipRpcMC.cfg")], runs,
